@@ -1,4 +1,5 @@
 import NetProto.Model.Net
+import NetProto.Spec.Rfc
 import Driver.Util
 namespace Driver.Net
 open Model.Net
@@ -149,6 +150,23 @@ def modelStep (st : St) (toks : List String) : St × String :=
       let (w', _) := deliverUdp w nic (protoOf pr) src dst sp dp ul pl
       ret w' "-"
     | _, _, _, _, _, _, _ => (st, "bad-op")
+  | ["echo4", nic, src, dst, msg, fl] =>
+    match nic.toNat?, hexN src, hexN dst, hexN msg, fl.toNat? with
+    | some nic, some src, some dst, some msg, some fl =>
+      if !w.echoAccepted nic dst then (st, "-") else
+      match echo4Reply msg fl with
+      | some r => (st, s!"r4 {toHexN dst} {toHexN src} ttl=255 {toHexN r}")
+      | none => (st, "-")
+    | _, _, _, _, _ => (st, "bad-op")
+  | ["echo6", nic, src, dst, msg, fl] =>
+    match nic.toNat?, hexN src, hexN dst, hexN msg, fl.toNat? with
+    | some nic, some src, some dst, some msg, some fl =>
+      if !w.echoAccepted nic dst then (st, "-") else
+      match echo6Reply src dst msg fl with
+      | some r => (st, s!"r6 {toHexN dst} {toHexN src} ttl=255 {toHexN r}")
+      | none => (st, "-")
+    | _, _, _, _, _ => (st, "bad-op")
+  | ["leftover"] => (st, "-")
   | _ => (st, "bad-op")
 
 /-! ### oracle (C09: who gets it; C11: what a socket returns / emits) -/
@@ -313,6 +331,36 @@ def oracleStep (st : St) (toks : List String) (res : String) : St × String :=
         (st, if ok then "ok" else "bad c11.write-emitted-other-bytes-or-length")
       | _ => (st, "bad c11.write-emitted-not-exactly-one-packet")
     | none => (st, "bad-op")
+  | [e, nic, src, dst, msg, _] =>
+    if e != "echo4" && e != "echo6" then (st, "ok") else
+    match nic.toNat?, hexN src, hexN dst, hexN msg with
+    | some nic, some src, some dst, some msg =>
+      let v6 := e == "echo6"
+      let own := o.localAddrs.any fun p => p.1 == nic && p.2 == dst
+      let isReq := msg.length ≥ 8 && msg.getD 0 0 == (if v6 then 128 else 8)
+      -- a request cut short of its sequence number (6 or 7 bytes) may be answered or ignored
+      let maybeReq := !v6 && msg.length ≥ 6 && msg.getD 0 0 == 8
+      let frames := if res == "-" then [] else res.splitOn " | "
+      if frames.length > 1 then (st, "bad c13.more-than-one-reply") else
+      match frames with
+      | [] => (st, if own && isReq then "bad c13.request-not-answered" else "ok")
+      | f :: _ =>
+        if !(own && (isReq || maybeReq)) then (st, "bad c13.reply-to-request-for-someone-else-or-non-request") else
+        match f.splitOn " " with
+        | [_, rs, rd, _, rm] =>
+          match hexN rs, hexN rd, hexN rm with
+          | some rs, some rd, some rm =>
+            let mirrors := rm.getD 0 0 == (if v6 then 129 else 0) && rm.drop 4 == msg.drop 4
+            let ckOk := if v6 then
+                Spec.Rfc.ocSum (rs ++ rd ++ Model.Header.be32 rm.length ++ [0, 0, 0, 58] ++ rm) 0 == 65535
+              else Spec.Rfc.ocSum rm 0 == 65535
+            (st, if rs != dst || rd != src then "bad c13.reply-addressing"
+                 else if !mirrors then "bad c13.reply-does-not-mirror-request"
+                 else if !ckOk then "bad c13.reply-checksum-invalid" else "ok")
+          | _, _, _ => (st, "bad c13.reply-unparsable")
+        | _ => (st, "bad c13.reply-unparsable")
+    | _, _, _, _ => (st, "bad-op")
+  | ["leftover"] => (st, if res == "-" then "ok" else "bad c13.unsolicited-frame")
   | _ => (st, "ok")
 
 def step (oracleMode : Bool) (st : St) (line : String) : St × String :=
